@@ -29,6 +29,8 @@ type Aggregate struct {
 	CasesTotal   int
 	Crashes      int
 	Extra        map[string]any
+	Digests      map[string]string
+	DigestPairs  int64
 }
 
 func (a *Aggregate) add(r *Result, c *Case) {
@@ -53,6 +55,20 @@ func (a *Aggregate) add(r *Result, c *Case) {
 		a.Failures = append(a.Failures, f)
 	}
 	a.Inconclusive = append(a.Inconclusive, r.Inconclusive...)
+	for k, v := range r.Digests {
+		if a.Digests == nil {
+			a.Digests = map[string]string{}
+		}
+		if prev, ok := a.Digests[k]; ok {
+			a.DigestPairs++
+			if prev != v {
+				a.Failures = append(a.Failures, Failure{Oracle: "cross-process-determinism", Key: "cross-process-determinism:" + k,
+					Detail: fmt.Sprintf("digest %q differs between two executions: %s vs %s", k, prev, v), CaseID: r.CaseID, Case: c})
+			}
+		} else {
+			a.Digests[k] = v
+		}
+	}
 }
 
 func (a *Aggregate) Fail(f Failure) {
